@@ -8,12 +8,13 @@ import json, os, random, shutil, subprocess, tempfile
 from concurrent.futures import ThreadPoolExecutor
 from multiprocessing import Pool
 from . import common as C
-from . import asa, ios
+from . import asa, ios, linux
 
 DEV = os.path.join(C.SPECS, "dev")
 
 DIALECTS = {
     "asa": dict(mod=asa, model="ASA", gen="AsaGen", trace="AsaTrace"),
+    "linux": dict(mod=linux, model="Linux", gen="LinuxGen", trace="LinuxTrace", maps=("tables",)),
     "ios": dict(mod=ios, model="IOS", gen="IosGen", trace="IosTrace", maps=("acls", "intfs")),
 }
 
@@ -114,8 +115,9 @@ def drc(device_text, spoc_text, spoc6=None, raw=None):
 
 def _plan(mod, devcfg, case):
     spoc = mod.render(case["tgt"], False)
-    spoc6 = mod.render(case["tgt6"], False) if case.get("tgt6") else None
-    raw = case.get("raw")
+    spoc6 = raw = None
+    if "parts" in case["tgt"]:
+        spoc6, raw = mod.merge_files(case)
     return drc(mod.render(devcfg, True), spoc, spoc6, raw)
 
 
@@ -149,6 +151,8 @@ def work_case(args):
             trace.append({"t": tid, "ev": "Done", "post": final, "n2": n2, "s2": so2[:300] if n2 else ""})
         return trace
 
+    if hasattr(mod, "init_extra"):
+        init.update(mod.init_extra(evs))
     if mode == "det":
         import hashlib
         n = 12 if case.get("tie") else 4
@@ -164,7 +168,7 @@ def work_case(args):
         out["script"] = "\n=== other run ===\n".join(v[1] for v in outs.values())
         out["nruns"] = n
         return out
-    if mode == "conv":
+    if mode in ("conv", "merge"):
         rep = mod.Replica(case["dev"])
         tr = [init]
         for e in evs:
